@@ -14,6 +14,17 @@
       if exception:  raise <an error carrying `text`>          -- C11: the backend failure reaches the caller
       (run_suites then returns `report.is_successful()`)
 
+  What becomes the pending failure — model of `AsyncEventManager._handler_loop` (lemoncheesecake/events.py):
+
+      try:    self.handle_event(event)               -- `for handler in handlers: handler(event)`
+      except Exception as excp:   self._pending_failure = excp, <text>;  break
+      finally: self._queue.task_done()
+
+  `except Exception`: the classes the iteration protocols treat specially (StopIteration, StopAsyncIteration) are
+  ordinary Exceptions and are recorded like any other; a BaseException that is no Exception (GeneratorExit, SystemExit,
+  KeyboardInterrupt raised INSIDE a handler, on the event-handling thread) is not caught: the handler thread dies, no
+  pending failure is recorded (finding D42, open: `Props/C11.lean`).
+
   The facts this decision reads are finite; the table obtained by executing the real `run_suites` on every
   combination of (keyboard interrupt, reporting-backend failure) is re-proved equal to `outcome` on every run
   (`Generated/C11TablesCheck.lean: run_outcome_table_agrees`).  Core Lean only.
@@ -30,6 +41,28 @@ structure Facts where
   /-- `report.is_successful()` at the end of the run -/
   successful : Bool
 deriving Repr, DecidableEq
+
+/-- the class of what a backend handler raised, as far as `_handler_loop` can tell classes apart -/
+inductive FaultClass
+  | exception            -- Exception and every subclass not named below (KeyError, OSError, user-defined, …)
+  | stopIteration | stopAsyncIteration      -- Exceptions with a meaning for `next` / `list(map(..))` / `async for`
+  | generatorExit | systemExit | keyboardInterrupt     -- BaseExceptions that are no Exception
+deriving Repr, DecidableEq
+
+def FaultClass.ofName (n : String) : FaultClass :=
+  if n == "StopIteration" then .stopIteration else if n == "StopAsyncIteration" then .stopAsyncIteration
+  else if n == "GeneratorExit" then .generatorExit else if n == "SystemExit" then .systemExit
+  else if n == "KeyboardInterrupt" then .keyboardInterrupt else .exception
+
+/-- `isinstance(excp, Exception)`: what the `except Exception` clause of `_handler_loop` catches -/
+def FaultClass.isException : FaultClass → Bool
+  | .generatorExit | .systemExit | .keyboardInterrupt => false
+  | _ => true
+
+/-- `_handler_loop`: the pending failure after a handler raised an instance of class `c` with text `text`
+    (none pending before) -/
+def pendingAfter (c : FaultClass) (text : String) : Option String :=
+  if c.isException then some text else none
 
 inductive TasksEnd | returns | raisesInternal | raisesKeyboardInterrupt
 deriving Repr, DecidableEq
